@@ -77,15 +77,21 @@ func simplify(start, s *State, visited map[*State]bool) {
 	for _, tr := range s.Transitions {
 		simplify(start, tr.Next, visited)
 	}
-	for s.simplifySelf(start) {
+	inlined := map[*State]bool{s: true}
+	for s.simplifySelf(start, inlined) {
 	}
 }
 
-func (s *State) simplifySelf(start *State) bool {
+func (s *State) simplifySelf(start *State, inlined map[*State]bool) bool {
 	for idx, tr := range s.Transitions {
 		if matcher.IsShortcut(tr.Matcher) {
 			next := tr.Next
 			s.Transitions = removeTransitionAt(idx, s.Transitions)
+			if inlined[next] {
+				// already merged into s: merging it again would only re-add the shortcuts removed so far
+				return true
+			}
+			inlined[next] = true
 			for _, tr := range next.Transitions {
 				if !s.has(tr) {
 					s.Transitions = append(s.Transitions, tr)
